@@ -426,9 +426,9 @@ func TestVerif_C09(t *testing.T) {
 		}
 		return
 	}
-	bound := 2
+	bound := 3
 	if ev.Thorough() {
-		bound = 3
+		bound = 5
 	}
 	ev.Bound("preemption_bound", bound)
 	var n, trans int64
@@ -602,7 +602,7 @@ func c09SeqWord(capn int, file bool, word []string) string {
 func c09Seq(t *testing.T) {
 	maxLen := 5
 	if ev.Thorough() {
-		maxLen = 7
+		maxLen = 6
 	}
 	ev.Bound("sequential_word_length", maxLen)
 	for _, cfg := range []struct {
@@ -620,11 +620,20 @@ func c09Seq(t *testing.T) {
 		}
 		sizes := []int{0, 1, real - 1, real, real + 1}
 		var n, states int64
+		capped := false
 		var word []string
 		var rec func(buffered int, rerr, werr bool, depth int, idx int64)
 		seen := map[string]bool{}
 		rec = func(buffered int, rerr, werr bool, depth int, idx int64) {
 			if depth == 2 && !ev.Mine(idx) {
+				return
+			}
+			if capped {
+				return
+			}
+			if n%2048 == 2047 && ev.OverBudget() {
+				capped = true
+				ev.Cap("time budget in sequential words")
 				return
 			}
 			if depth >= 2 || ev.Mine(0) || depth == 0 {
